@@ -45,6 +45,8 @@ class Runner:
         self.ctx = ctx
         self.legacy = legacy
         self.confirmed_hangs = set()
+        self.ncatch = 0
+        self.catch_every = 4 if ctx.tier == "quick" else 1
         self.fresh()
 
     def fresh(self):
@@ -72,6 +74,20 @@ class Runner:
                 site = core.innermost_ckl_frame(o.exc)
                 ctx.violation("C13:%s:bad-error-value:%s" % (callee, site[0]),
                               "%s raises CklRuntimeError whose value is %s %r" % (prog, type(v).__name__, v), {"src": prog})
+            # "... which catch can intercept": the same case inside do .. catch all must yield the handler's value
+            self.ncatch += 1
+            if kind == "form" or self.catch_every <= 1 or self.ncatch % self.catch_every == 0:
+                wrapped = "do %s catch all 'caught-by-catch-all' end" % prog
+                env2 = self.Env()
+                o2 = observe(lambda: self.it.interpret(wrapped, "c13", env2), BUDGET)
+                ctx.count("catchability_checks")
+                if not (o2.kind == "value" and getattr(o2.value, "value", None) == "caught-by-catch-all"):
+                    site = core.innermost_ckl_frame(o2.exc) if o2.exc is not None else ("?", "?")
+                    ctx.violation("C13:%s:not-catchable:%s" % (callee, site[0]),
+                                  "%s -> %s %s (the runtime error of the bare form is not intercepted by catch all)" % (
+                                      wrapped, o2.kind, core.safe_str(o2.exc if o2.exc is not None else o2.value, 100)), {"src": wrapped})
+                    if o2.kind == "hang":
+                        self.fresh()
             return o
         if o.kind == "syntax":
             # the harness wrote the program; a syntax error here is a harness bug, not a finding
@@ -173,6 +189,8 @@ def finalize(merged, tier):
         reasons.append("%d generated programs did not parse (harness defect)" % c["harness_syntax_errors"])
     if c.get("cli_runs", 0) == 0:
         reasons.append("no CLI run")
+    if c.get("catchability_checks", 0) == 0:
+        reasons.append("no catchability check")
     extra = {"step_budget": BUDGET, "max_steps_terminating": mx.get("max_steps_terminating")}
     extra["confirm_budget"] = CONFIRM_BUDGET
     extra["max_steps_slow_case"] = mx.get("max_steps_slow_case")
